@@ -3,9 +3,9 @@
    Model: Model/Transpose.v (transpose_sparse_matrix_on_disk and its parallel
    version), Model/Sparse.v (reshaping). "CSC" = the input: ptr has one entry per
    column + 1, idx holds the row of each stored entry. *)
-From Coq Require Import List Arith ZArith Bool Lia.
+From Coq Require Import List Arith ZArith Bool Lia Permutation Sorted.
 From CTM Require Import Base.Sx Model.Sparse Model.Transpose
-  Proofs.SparseP Proofs.TransposeP Proofs.TransposeFillP Proofs.TransposeSpecP Proofs.TransposePatternP Proofs.TransposeParP Proofs.SparseReshapeP.
+  Proofs.SparseP Proofs.TransposeP Proofs.TransposeFillP Proofs.TransposeSpecP Proofs.TransposePatternP Proofs.TransposeParP Proofs.SparseReshapeP Proofs.SparseSelectP.
 Import ListNotations.
 
 (* ---- count pass (_calculate_csr_indptr): for every load chunk size >= 1 the pointer
@@ -173,13 +173,106 @@ Theorem c13_copy_layer_dense : forall (d : dense) nr nc chunks out,
 Proof. exact copy_dense_exact. Qed.
 Print Assumptions c13_copy_layer_dense.
 
-(* NOT YET PROVED (statements kept; the correspondence check covers them by testing):
-   c13_shuffle_rows    : wf_csr m nr nc -> Permutation order (seq 0 nr) ->
-       exists out, shuffle_rows m order = Ok out /\
-       dense_of out nr nc = map (fun r => nth r (dense_of m nr nc) []) order
-   c13_subset_columns  : the same for subset_columns with the sorted chosen columns
-   c13_amalgamate      : amalgamate_csr pieces n = Ok out ->
-       dense_of out = concatenation of the dense views of the pieces *)
+(* ---- shuffle_csr_h5ad_rows (precompute_indptr + the row-by-row copy into datasets of
+   the original size): for every well-formed CSR matrix - duplicate minor indices inside
+   a row allowed - and EVERY permutation new_row_order of its rows the function returns
+   a well-formed CSR matrix with the same number of stored entries in which
+   - the stored entries of row i (indices and values, in storage order, explicit zeros
+     included) are exactly those of input row new_row_order[i]   (row_entries);
+   - hence every cell, and the dense view: row i of the output is row new_row_order[i]
+     of the input;
+   - no row stores a column twice if no input row does. *)
+Theorem c13_shuffle_rows : forall m nr nc order,
+  wf_csr m nr nc -> Permutation order (seq 0 nr) ->
+  exists out, shuffle_rows m order = Ok out /\
+    wf_csr out nr nc /\ length (idx out) = length (idx m) /\
+    (forall i, i < nr -> row_entries out i = row_entries m (nth i order 0)) /\
+    (forall i x, i < nr -> cell out i x = cell m (nth i order 0) x) /\
+    dense_of out nr nc = map (fun r => nth r (dense_of m nr nc) []) order /\
+    (no_dup_minor m -> no_dup_minor out).
+Proof. exact shuffle_rows_exact. Qed.
+Print Assumptions c13_shuffle_rows.
+
+(* the hypothesis "permutation of ALL rows" cannot be weakened to "duplicate-free list of
+   rows": shuffle_csr_h5ad_rows does not validate new_row_order; a list that leaves rows
+   out is accepted and the file written is not a CSR matrix (indptr zero-padded, hence
+   decreasing; X keeps the old shape while obs has fewer rows; anndata refuses to read it).
+   Witness: the 4 x 3 matrix of c13_ex and new_row_order = [2; 0]. *)
+Theorem c13_shuffle_rows_sublist_refuted :
+  exists m order out,
+    wf_csr m 4 3 /\ no_dup_minor m /\ NoDup order /\ Forall (fun r => r < 4) order /\
+    shuffle_rows m order = Ok out /\ ptr out = [0; 1; 0; 0; 5] /\ ~ mono (ptr out).
+Proof. exact shuffle_rows_sublist_refuted. Qed.
+Print Assumptions c13_shuffle_rows_sublist_refuted.
+
+(* ---- subset_csc_h5ad_columns.  The input is CSC: its major slices are the columns
+   (wf_csr m n_cols n_rows: n_cols + 1 pointers, row indices below n_rows).  For EVERY
+   list of columns below n_cols (the correspondence check drives non-empty
+   duplicate-free lists; a repeated column is simply kept as often as it is listed) the
+   function returns a well-formed CSC matrix with one column per chosen column, and
+   with cs = the chosen columns in increasing order (np.sort: sorted, a permutation of
+   the list)
+   - the stored entries of output column i (row indices and values, in storage order)
+     are exactly those of input column cs[i]: values intact;
+   - hence cell (row r, new column i) = cell (row r, old column cs[i]) for every r, and
+     the column-major dense view consists of exactly the chosen columns, in order. *)
+Theorem c13_subset_columns : forall m n_cols n_rows chosen,
+  wf_csr m n_cols n_rows -> Forall (fun c => c < n_cols) chosen ->
+  let cs := sort_by (fun x => x) chosen in
+  let k := length chosen in
+  Sorted le cs /\ Permutation cs chosen /\
+  exists out, subset_columns m chosen = Ok out /\
+    wf_csr out k n_rows /\
+    (forall i, i < k -> row_entries out i = row_entries m (nth i cs 0)) /\
+    (forall i r, i < k -> cell out i r = cell m (nth i cs 0) r) /\
+    dense_of out k n_rows = map (fun c => nth c (dense_of m n_cols n_rows) []) cs /\
+    (no_dup_minor m -> no_dup_minor out).
+Proof. exact subset_columns_exact. Qed.
+Print Assumptions c13_subset_columns.
+
+(* ---- amalgamate_h5ad.  A source is a CSR matrix (SrcSparse; a CSC source enters as the
+   CSR arrays of the same matrix, its transposition being c13_transpose_exact) or a dense
+   array (SrcDense) together with the list of rows taken from it; source_ok nc: the
+   matrix is well formed with nc columns and stores no (row, column) pair twice, the row
+   list is non-empty, duplicate-free and in range (other lists are refused:
+   c05_get_batch_rejects).  amalgamate_to_dense / amalgamate_to_csr are the bodies of
+   the entry points the correspondence check drives (c13_amalgamate_wire).
+   For EVERY list of admissible sources, with D = the selected rows of source 1 in the
+   requested order, then those of source 2, ... (source_rows reads them off the dense
+   views):
+   - the dense destination is exactly D;
+   - the sparse destination, told the total number of rows, is a well-formed
+     duplicate-free CSR matrix whose dense view is D: both destinations agree. *)
+Theorem c13_amalgamate : forall srcs nc,
+  Forall (source_ok nc) srcs ->
+  let D := concat (map (source_rows nc) srcs) in
+  amalgamate_to_dense srcs = Ok D /\
+  exists out, amalgamate_to_csr srcs (length D) = Ok out /\
+    wf_csr out (length D) nc /\ no_dup_minor out /\ dense_of out (length D) nc = D.
+Proof. exact amalgamate_exact. Qed.
+Print Assumptions c13_amalgamate.
+
+(* the joining step on its own (amalgamate_csr_to_x = merge_csr + the row count): pieces
+   of n_k rows are joined into a well-formed matrix of sum n_k rows whose dense view is
+   the concatenation of theirs, which is what amalgamate_dense_to_x writes *)
+Theorem c13_amalgamate_join : forall pieces ns nc,
+  Forall2 (fun p n => wf_csr p n nc /\ no_dup_minor p) pieces ns ->
+  exists out, amalgamate_csr pieces (sum_list ns) = Ok out /\
+    wf_csr out (sum_list ns) nc /\ no_dup_minor out /\
+    dense_of out (sum_list ns) nc =
+    concat (map (fun pn => dense_of (fst pn) (snd pn) nc) (combine pieces ns)) /\
+    dense_of out (sum_list ns) nc =
+    amalgamate_dense (map (fun pn => dense_of (fst pn) (snd pn) nc) (combine pieces ns)).
+Proof. exact amalgamate_csr_exact. Qed.
+Print Assumptions c13_amalgamate_join.
+
+(* entry points 1305 / 1306 = amalgamate_to_csr / amalgamate_to_dense on the decoded wire *)
+Theorem c13_amalgamate_wire : forall srcs nr ss n,
+  sx_list sx_source srcs = Some ss -> sx_nat nr = Some n ->
+  run_amalgamate_sparse (L [srcs; nr]) = of_res of_comp (amalgamate_to_csr ss n) /\
+  run_amalgamate_dense srcs = of_res of_dense (amalgamate_to_dense ss).
+Proof. exact run_amalgamate_decoded. Qed.
+Print Assumptions c13_amalgamate_wire.
 
 (* ---- non-vacuity: a 3 x 4 matrix (indices_max = 3 rows, 4 columns) in CSC form with
    an empty column and an empty row satisfies the hypotheses, and the function run
@@ -244,3 +337,60 @@ Example c13_example_parallel :
   transpose_v2 c13_ex true 3 2 2 2 1 =
   Ok {| ptr := [0; 2; 2; 5]; idx := [0; 3; 0; 2; 3]; dat := [5; 8; 6; 7; 9]%Z |}.
 Proof. vm_compute. reflexivity. Qed.
+
+(* shuffle_rows: the 4 x 3 CSR reading of c13_ex (rows = its major slices) and the
+   permutation [2; 0; 3; 1] satisfy the hypotheses of c13_shuffle_rows *)
+Example c13_example_shuffle :
+  wf_csr c13_ex 4 3 /\ Permutation [2; 0; 3; 1] (seq 0 4) /\
+  shuffle_rows c13_ex [2; 0; 3; 1] =
+    Ok {| ptr := [0; 1; 3; 5; 5]; idx := [2; 0; 2; 0; 2]; dat := [7; 5; 6; 8; 9]%Z |} /\
+  dense_of c13_ex 4 3 = [[5; 0; 6]; [0; 0; 0]; [0; 0; 7]; [8; 0; 9]]%Z.
+Proof.
+  destruct c13_example_wf as (W & HP & HD & _).
+  split; [split; [exact W | split; [exact HP | exact HD]]|].
+  split.
+  - cbn [seq].
+    apply (perm_trans (l' := [0; 2; 3; 1])); [apply perm_swap|]. apply perm_skip.
+    apply (perm_trans (l' := [2; 1; 3])); [apply perm_skip, perm_swap|].
+    apply (perm_trans (l' := [1; 2; 3])); [apply perm_swap | apply Permutation_refl].
+  - vm_compute. split; reflexivity.
+Qed.
+
+(* subset_columns: c13_ex as the CSC matrix it is (4 columns, 3 rows) and the columns
+   [3; 0] satisfy the hypotheses of c13_subset_columns; they are kept in increasing order *)
+Example c13_example_subset :
+  wf_csr c13_ex 4 3 /\ Forall (fun c => c < 4) [3; 0] /\
+  sort_by (fun x => x) [3; 0] = [0; 3] /\
+  subset_columns c13_ex [3; 0] =
+    Ok {| ptr := [0; 2; 4]; idx := [0; 2; 0; 2]; dat := [5; 6; 8; 9]%Z |}.
+Proof.
+  destruct c13_example_wf as (W & HP & HD & _).
+  split; [split; [exact W | split; [exact HP | exact HD]]|].
+  split; [repeat (apply Forall_cons; [lia|]); apply Forall_nil|].
+  vm_compute. split; reflexivity.
+Qed.
+
+(* amalgamate: rows [3; 0] of the 4 x 3 CSR reading of c13_ex and row [1] of a dense
+   2 x 3 array are admissible sources; both destinations hold the same 3 rows *)
+Definition c13_srcs : list source :=
+  [SrcSparse c13_ex 3 [3; 0]; SrcDense [[1; 0; 2]; [0; 0; 4]]%Z 2 [1]].
+Example c13_example_amalgamate :
+  Forall (source_ok 3) c13_srcs /\
+  concat (map (source_rows 3) c13_srcs) = [[8; 0; 9]; [5; 0; 6]; [0; 0; 4]]%Z /\
+  amalgamate_to_dense c13_srcs = Ok [[8; 0; 9]; [5; 0; 6]; [0; 0; 4]]%Z /\
+  amalgamate_to_csr c13_srcs 3 =
+    Ok {| ptr := [0; 2; 4; 5]; idx := [0; 2; 0; 2; 2]; dat := [8; 9; 5; 6; 4]%Z |}.
+Proof.
+  destruct c13_example_wf as (W & HP & HD & ND).
+  split.
+  - constructor; [|constructor; [|constructor]].
+    + cbn [source_ok]. split; [reflexivity|].
+      split; [split; [exact W | split; [reflexivity | exact HD]]|]. split; [exact ND|].
+      split; [discriminate|]. split; [repeat (apply NoDup_cons; [cbn [In]; lia|]); apply NoDup_nil|].
+      cbn. repeat (apply Forall_cons; [lia|]). apply Forall_nil.
+    + cbn [source_ok]. split; [reflexivity|].
+      split; [repeat (apply Forall_cons; [reflexivity|]); apply Forall_nil|].
+      split; [discriminate|]. split; [repeat (apply NoDup_cons; [cbn [In]; lia|]); apply NoDup_nil|].
+      repeat (apply Forall_cons; [lia|]). apply Forall_nil.
+  - vm_compute. repeat split; reflexivity.
+Qed.
